@@ -9,6 +9,7 @@ import (
 	"fmt"
 	"os"
 	"path/filepath"
+	"runtime/debug"
 	"sort"
 	"strings"
 	"sync"
@@ -60,7 +61,7 @@ func judgeLabelled(c *Case) Verdict {
 func sigID(sig string) string {
 	if i := strings.IndexByte(sig, ':'); i > 0 {
 		h := sig[:i]
-		if len(h) == 3 && (h[0] == 'K' || h[0] == 'N') {
+		if len(h) >= 3 && (h[0] == 'K' || h[0] == 'N') && h[1] >= '0' && h[1] <= '9' {
 			return h
 		}
 	}
@@ -272,7 +273,7 @@ func runCase(idx int, cseed uint64, cfg runCfg, worker int) caseOut {
 		}
 		curCase[worker].Store(c)
 		atomic.StoreInt64(&curStart[worker], time.Now().UnixNano())
-		v := judgeLabelled(c)
+		v := Judge(c)
 		atomic.StoreInt64(&curStart[worker], 0)
 		co.evals++
 		co.optKeys = append(co.optKeys, o.Key())
@@ -294,13 +295,13 @@ func runCase(idx int, cseed uint64, cfg runCfg, worker int) caseOut {
 		if v.Viol != nil {
 			v.Viol.Case = idx
 			// minimise
-			if co.kind != "malformed" && len(co.viols) < 2 {
+			if co.kind != "malformed" && len(co.viols) < 3 {
 				sig := v.Viol.Signature
 				cc := *c
 				minIn, minSk := Shrink(root, avoid, 400, func(in, sk string) bool {
 					t := cc
 					t.Input, t.Skeleton = in, sk
-					w := judgeLabelled(&t)
+					w := Judge(&t)
 					return w.Viol != nil && w.Viol.Signature == sig
 				})
 				t := cc
@@ -308,11 +309,17 @@ func runCase(idx int, cseed uint64, cfg runCfg, worker int) caseOut {
 				// try to drop options / registry
 				t = simplifyOptions(t, sig)
 				w := judgeLabelled(&t)
-				if w.Viol != nil && w.Viol.Signature == sig {
+				if w.Viol != nil && strings.HasSuffix(w.Viol.Signature, sig) {
 					w.Viol.Case = idx
 					w.Viol.Detail += "\n(minimised from a " + fmt.Sprint(len(input)) + "-byte generated input)"
 					v.Viol = w.Viol
+				} else {
+					label(c, v.Viol, func(variant *Case) *vh.Violation { return Judge(variant).Viol })
 				}
+			} else if co.kind == "malformed" {
+				label(c, v.Viol, func(variant *Case) *vh.Violation { return Judge(variant).Viol })
+			} else {
+				continue // enough violations recorded for this document
 			}
 			co.viols = append(co.viols, *v.Viol)
 		} else if co.sample == nil && v.Changed && co.kind != "malformed" && len(input) < 400 {
@@ -324,7 +331,7 @@ func runCase(idx int, cseed uint64, cfg runCfg, worker int) caseOut {
 
 func simplifyOptions(t Case, sig string) Case {
 	same := func(c Case) bool {
-		w := judgeLabelled(&c)
+		w := Judge(&c)
 		return w.Viol != nil && w.Viol.Signature == sig
 	}
 	for _, mod := range []func(*Case){
@@ -358,7 +365,9 @@ func main() {
 	witness := flag.String("witness", "", "evaluate exactly the case in this JSON file")
 	known := flag.Bool("known", false, "allow the generator to produce known-defect shapes")
 	workers := flag.Int("workers", 16, "goroutines")
+	dump := flag.Int("dump", -1, "debug: print the generated input of this case index to stderr and exit")
 	flag.Parse()
+	debug.SetGCPercent(800) // the oracle is allocation-bound; trade memory for wall time
 	if *out == "" {
 		fmt.Fprintln(os.Stderr, "htmloracle: -out DIR required")
 		os.Exit(2)
@@ -421,6 +430,14 @@ func main() {
 	seeds := make([]uint64, *n)
 	for i := range seeds {
 		seeds[i] = master.Uint64()
+	}
+	if *dump >= 0 && *dump < *n {
+		co := runCase(*dump, seeds[*dump], runCfg{tier: *tier, known: *known}, 0)
+		fmt.Fprintf(os.Stderr, "kind=%s\n%s\n", co.kind, co.input)
+		for _, v := range co.viols {
+			fmt.Fprintf(os.Stderr, "VIOL %s\n", v.Signature)
+		}
+		return
 	}
 	outs := make([]caseOut, *n)
 	var next int64 = -1
